@@ -258,6 +258,38 @@ def run(ctx):
                         out.append((n, lab))
         return out
 
+    def delegated(pred):
+        """Edges of parse() on which a file-local bool helper has answered false, for helpers inside which an edge
+        matching pred exists and every such edge leads to `return false` only (the guard moved into a helper whose
+        refusal parse() turns into a rejection).  Returns (edges, leak) with leak = a matching helper edge can still
+        reach a true return of the helper."""
+        out, leak = [], False
+        for (uu_, hf_) in ctx.scope(f)[1:]:
+            if (qtype(hf_) or '').split('(')[0].strip() != 'bool':
+                continue
+            HF_, hg_ = ctx.facts(hf_), ctx.cfg(hf_)
+            he = []
+            for n_ in hg_.live:
+                if n_.kind == 'cond':
+                    for lab_ in ('T', 'F'):
+                        if any(pred(ft) for ft in HF_.cond_facts(n_.ast, lab_ == 'T')):
+                            he.append((n_, lab_))
+            if not he:
+                continue
+            trues = [rn_ for rn_ in hg_.returns if kids(rn_.ast) and HF_.keys.key(kids(rn_.ast)[0]) != 'n:0']
+            for (n_, lab_) in he:
+                for (m_, l_) in n_.succs:
+                    if l_ == lab_ and _reach(hg_, m_, trues):
+                        leak = True
+            hq = qn(hf_)
+            for n_ in g.live:
+                if n_.kind == 'cond':
+                    for lab_ in ('T', 'F'):
+                        if any(ft[0] == '==' and 'n:0' in ft[1:] and (ft[1] if ft[2] == 'n:0' else ft[2]).startswith(hq + '(')
+                               for ft in F.cond_facts(n_.ast, lab_ == 'T')):
+                            out.append((n_, lab_))
+        return out, leak
+
     def must_pass(targets, edges):
         return bool(edges) and not g.reachable_avoiding(targets, cut_edges=[(n.id, l) for (n, l) in edges])
 
@@ -292,20 +324,45 @@ def run(ctx):
                 offk = K.key(kids(la)[0])
     if offk is None:
         raise AnalysisBroken('C09-exit: the offset local of parse() was not found')
-    e_max = edges_where(lambda ft: ft[0] == '<' and 'max()' in ft[1] + ft[2] and offk in ft[1] + ft[2])
-    e_min = edges_where(lambda ft: ft[0] == '<' and 'min()' in ft[1] + ft[2] and offk in ft[1] + ft[2])
-    ctx.check(cannot_follow(e_max, [final]) and cannot_follow(e_min, [final]), 'C09-exit',
+    p_max = lambda ft: ft[0] == '<' and 'max()' in ft[1] + ft[2] and offk in ft[1] + ft[2]
+    p_min = lambda ft: ft[0] == '<' and 'min()' in ft[1] + ft[2] and offk in ft[1] + ft[2]
+    e_max, e_min = edges_where(p_max), edges_where(p_min)
+    leak_ = False
+    if not e_max:
+        e_max, l1 = delegated(p_max)
+        leak_ = leak_ or l1
+    if not e_min:
+        e_min, l2 = delegated(p_min)
+        leak_ = leak_ or l2
+    ctx.check(cannot_follow(e_max, [final]) and cannot_follow(e_min, [final]) and not leak_, 'C09-exit',
               'offset adjustment beyond civil_second::max()/min() is rejected', final.ast,
               'a path on which cs -/+ offset would leave the civil range still reaches the accepting return',
               construct='exit:offsetguard', detail='%d/%d guard edges' % (len(e_max), len(e_min)))
-    e_sat = edges_where(lambda ft: ft[0] == '<' and any(re.search(r'\.cs$', z) for z in ft[1:]) and
-                        any(re.match(r'^cs#', z) or re.match(r'^\w+#0x[0-9a-f]+$', z) for z in ft[1:]))
-    ctx.check(cannot_follow(e_sat, [final]) and len(e_sat) >= 2, 'C09-exit',
+    p_sat = lambda ft: ft[0] == '<' and any(re.search(r'\.cs$', z) for z in ft[1:]) and \
+        any(re.match(r'^cs#', z) or re.match(r'^\w+#0x[0-9a-f]+$', z) for z in ft[1:])
+    e_sat = edges_where(p_sat)
+    n_sat = len(e_sat)
+    leak_s = False
+    if not e_sat:
+        e_sat, leak_s = delegated(p_sat)
+        # (the two re-checks sit in the helper)
+        n_sat = sum(1 for (uu_, hf_) in ctx.scope(f)[1:] for n_ in ctx.cfg(hf_).live if n_.kind == 'cond' for lab_ in ('T', 'F')
+                    if any(p_sat(ft) for ft in ctx.facts(hf_).cond_facts(n_.ast, lab_ == 'T')))
+    ctx.check(cannot_follow(e_sat, [final]) and n_sat >= 2 and not leak_s, 'C09-exit',
               'saturated lookups are re-checked against the civil time', final.ast,
               'an instant that saturated to time_point::max()/min() is returned although the civil time lies beyond the '
               'representable range', construct='exit:saturation', detail='%d re-check edges' % len(e_sat))
-    lookups = [x for x in walk(f) if x.get('kind') == 'CXXMemberCallExpr' and callee(x) and callee(x)[1] == 'lookup' and callee(x)[2] is not None]
-    recv = set(F.keys.key(callee(x)[2]) for x in lookups)
+    from ..frontend import owner_fn as _own
+    lookups = []
+    recv = set()
+    for (uu_, ff_) in ctx.scope(f):
+        if ff_ is not f and (qtype(ff_) or '').split('(')[0].strip() != 'bool':
+            continue
+        Fz = ctx.facts(ff_)
+        for x in walk(ff_):
+            if x.get('kind') == 'CXXMemberCallExpr' and callee(x) and callee(x)[1] == 'lookup' and callee(x)[2] is not None and _own(x) is ff_:
+                lookups.append(x)
+                recv.add(Fz.keys.key(callee(x)[2]))      # (a helper's zone parameter is keyed as what parse() passes for it)
     ctx.check(len(lookups) >= 3 and len(recv) == 1, 'C09-exit', 'the civil time and both saturation re-checks are looked up in one and the same zone', final.ast,
               'the saturation re-checks consult a different zone (%s) than the one the civil time was interpreted in: with a parsed '
               'UTC offset and a non-UTC argument zone an unrepresentable instant is accepted or a representable one rejected'
